@@ -58,6 +58,12 @@ var (
 	eRCAst = event{K: kRCA, IDMode: idStale, EchoOurs: true}
 	eRTR   = event{K: kRTR, ID: 0x70}
 	eRTA   = event{K: kRTA, ID: 0x71}
+
+	eRCAoth   = event{K: kRCA, IDMode: idOther, EchoOurs: true}
+	eRCNoth   = event{K: kRCN, IDMode: idOther}
+	eUnknown  = event{K: kOther, Code: 12, ID: 0x55, Data: []byte{0, 0, 0, 1, 'i', 'd'}} // RFC 1570 Identification
+	eSendPJ   = event{K: kSendPJ, Proto: 0x80fd, Data: []byte{1, 1, 0, 4}}
+	eSendEcho = event{K: kSendEcho}
 )
 
 func knownCases() []replayCase {
@@ -113,6 +119,13 @@ func regressionCases() []replayCase {
 			replayCase{Name: p + "-rtr-in-opened", Config: c, Events: []event{eOpen, eUp, rq, eRCA, eRTR, eDown}},
 			replayCase{Name: p + "-renegotiation-in-opened", Config: c, Events: []event{eOpen, eUp, rq, eRCA, okReq(c, 0x42), eRCA, eDown}},
 			replayCase{Name: p + "-silent-peer", Config: c, Events: []event{eOpen, eUp}},
+			// an Ack that carries the identifier of ANOTHER packet we sent (our reply to the peer's request; for LCP the
+			// Code-Reject / Protocol-Reject / Echo-Request it originated) acknowledges nothing (seeded change C11-C)
+			replayCase{Name: p + "-ack-with-id-of-our-reply", Config: c, Events: []event{eOpen, eUp, rq, eRCAoth, okReq(c, 0x43), eTO, eDown}},
+			replayCase{Name: p + "-ack-with-id-of-our-code-reject", Config: c, Events: []event{eOpen, eUp, eUnknown, eRCAoth, rq, eTO, eRCA, eDown}},
+			replayCase{Name: p + "-ack-with-id-of-our-protocol-reject", Config: c, Events: []event{eOpen, eUp, rq, eSendPJ, eRCAoth, eRCNoth, eTO, eRCA, eDown}},
+			replayCase{Name: p + "-ack-with-id-of-our-echo-request", Config: c, Events: []event{eOpen, eUp, rq, eRCA, eSendEcho, eRCAoth, rq, eRCAoth, eDown}},
+			replayCase{Name: p + "-ack-with-id-of-our-terminate-request", Config: c, Events: []event{eOpen, eUp, rq, eRCA, eClose, eOpen, eRCAoth, eDown, eUp, eRCAoth, rq, eDown}},
 			replayCase{Name: p + "-close-from-opened-silent", Config: lcpSafe(c), Events: []event{eOpen, eUp, rq, eRCA, eClose}},
 		)
 	}
